@@ -11,7 +11,8 @@
 //
 // Concretisation table (abstract character class -> byte; `inst` seeds the free choices, fixed within
 // one behaviour):
-//   a, b   two DIFFERENT characters of  A-Z a-z 0-9 - _ . ~          sp  ' '     tab  '\t'
+//   a, b   two DIFFERENT characters of  A-Z a-z 0-9 - _ . ~ (inst % 3 == 1: b is a in the other case)
+//          sp  ' '     tab  '\t'
 //   eq '='  cm ','  sc ';'  pc '%'  pl '+'
 //   op     one of  ! " # $ & ' ( ) * / : < > ? @ [ \ ] ^ ` { | }
 //   np     one of  0x00 0x01 0x02 0x1f 0x7f 0x80 0xa0 0xc3 0xe9 0xff   (never a C isspace() byte: at the
@@ -24,6 +25,7 @@
 // pins none of these).
 // The carrier hands out exactly-sized heap copies without NUL terminator.
 #include <algorithm>
+#include <cctype>
 #include <cstdint>
 #include <cstring>
 #include <fstream>
@@ -111,6 +113,13 @@ struct Conc
     do
       cm["b"] = r.pick(TOKCH);
     while (cm["b"] == cm["a"]);
+    // every third instance: b is a in the other case (keys "ab"/"aa", "a"/"b" ... are then equal up to case)
+    if (inst % 3 == 1)
+    {
+      while (!isalpha((unsigned char)cm["a"]))
+        cm["a"] = r.pick(TOKCH);
+      cm["b"] = (char)(cm["a"] ^ 0x20);
+    }
     cm["sp"]  = ' ';
     cm["tab"] = '\t';
     cm["eq"]  = '=';
@@ -257,7 +266,8 @@ static bool printable(const std::string &s)
       return false;
   return true;
 }
-// GetValue agrees with GetAllEntries for every key
+// GetValue agrees with GetAllEntries for every key - and for what is NOT there: a proper prefix, a
+// one-character extension and the case variant of a key that are not themselves keys are not found
 static bool gets_ok(const BgPtr &b, const List &l)
 {
   for (auto &e : l)
@@ -266,6 +276,20 @@ static bool gets_ok(const BgPtr &b, const List &l)
     Buf k(e.first);
     if (!b->GetValue(k.view(), v) || v != e.second)
       return false;
+    std::string flipped = e.first;
+    for (auto &c : flipped)
+      if (isalpha((unsigned char)c))
+        c = (char)(c ^ 0x20);
+    std::string probes[3] = {e.first.substr(0, e.first.size() - 1), e.first + e.first.back(), flipped};
+    for (auto &pk : probes)
+    {
+      bool member = false;
+      for (auto &m : l)
+        member = member || m.first == pk;
+      Buf p(pk);
+      if (!member && b->GetValue(p.view(), v))
+        return false;
+    }
   }
   return true;
 }
@@ -610,7 +634,25 @@ static int record(uint64_t seed, int nexec, int len)
     size_t nk = 10 + r.below(11);
     while (keys.size() < nk)
     {
+      // a third of the keys are unrelated, the others are derived from an earlier key: one or two characters
+      // longer (prefix chains k, k1, k10), the last character replaced (same length), or the case variant
       std::string k = rnd_str(5, false);
+      if (!keys.empty() && r.coin(65))
+      {
+        k           = keys[r.below(keys.size())];
+        size_t how  = r.below(4);
+        std::string c1(1, cz.ch(PR[r.below(9)]));
+        if (how == 0)
+          k += c1;
+        else if (how == 1)
+          k += c1 + std::string(1, cz.ch(PR[r.below(9)]));
+        else if (how == 2)
+          k.back() = c1[0];
+        else
+          for (auto &c : k)
+            if (c == cz.ch("a") || c == cz.ch("b"))
+              c = (c == cz.ch("a")) ? cz.ch("b") : cz.ch("a");
+      }
       if (!k.empty() && std::find(keys.begin(), keys.end(), k) == keys.end())
         keys.push_back(k);
     }
